@@ -47,6 +47,32 @@ let err_s = function 0 -> "invalid_expand_input" | 1 -> "invalid_tuple" | 2 -> "
   | 3 -> "relation_not_found" | 4 -> "type_not_found" | _ -> "other"
 let xerr_code = function EInvalidInput -> 0 | EInvalidTuple -> 1 | EValidation -> 2 | ERelationNotFound -> 3
 
+(* Cross-check of extraction: with ORACLE_DUMP=<file> the values the EXTRACTED model computes for
+   every request (error class, or the tree as a code list: node kinds, names, arities, leaf lengths
+   and order-sensitive checksums of the leaf users / computed entries) are appended to that file;
+   bin/coqreplay_c30.py recomputes the same numbers inside Coq with vm_compute. *)
+let dump_chan = match Sys.getenv_opt "ORACLE_DUMP" with
+  | Some p when p <> "" -> Some (open_out_gen [Open_append; Open_creat] 0o644 p)
+  | _ -> None
+let obj_code (o : obj) = int_of_n o.otype * 1009 + int_of_n o.oid
+let subj_code = function
+  | SObj o -> 7 * obj_code o
+  | SWild t -> 7 * int_of_n t + 1
+  | SSet (o, r) -> 7 * (obj_code o * 1013 + int_of_n r) + 2
+let cref_code (b, r) = (match b with UObj o -> 2 * obj_code o | UWild t -> 2 * int_of_n t + 1) * 1013 + int_of_n r
+let wsum f l = snd (List.fold_left (fun (i, acc) x -> (i + 1, acc + i * f x)) (1, 0) l)
+let name_code (o, r) = [obj_code o; int_of_n r]
+let rec tree_code = function
+  | TUsers (n, us) -> 0 :: name_code n @ [List.length us; wsum subj_code us]
+  | TComputed (n, u) -> 1 :: name_code n @ name_code u
+  | TTupleToUserset (n, u, cs) -> 2 :: name_code n @ name_code u @ [List.length cs; wsum cref_code cs]
+  | TUnion (n, ks) -> 3 :: name_code n @ (List.length ks :: List.concat_map tree_code ks)
+  | TInter (n, ks) -> 4 :: name_code n @ (List.length ks :: List.concat_map tree_code ks)
+  | TDiff (n, b, s) -> 5 :: name_code n @ tree_code b @ tree_code s
+let res_code = function
+  | XErr e -> [900 + xerr_code e]
+  | XTree t -> 800 :: tree_code t
+
 let f _id vs =
   match vs with
   | [I "1"; model; conds; stored; requests; tn; rn; idn] ->
@@ -71,6 +97,9 @@ let f _id vs =
         let where = (match q with XReq _ -> name_s (o, rel) | XEmpty -> "<empty>" | XMalformed -> "<malformed>")
                     ^ Printf.sprintf " [%d contextual]" (List.length ctx) in
         let mres = expand_top leb m cs ctx store q in
+        (match dump_chan with
+         | Some ch -> output_string ch (String.concat " " (_id :: List.map string_of_int (res_code mres)) ^ "\n")
+         | None -> ());
         let rd = match q with XReq _ -> get_relation m o.otype rel | _ -> None in
         (match as_list outcome with
          | [I "1"; c] ->
